@@ -7,6 +7,9 @@ Header: `gridn dim=<d> limit=<k|default> (nobounds | bounds <lo>*d <up>*d)`
   `add`               -> `ok` | `nopending`                 add(pending)
   `abandon`           -> `0` | `1` | `nopending`            remove(pending) (its bool) + destroyCell
   `rm <x>`            -> `1` | `0` | `absent` | `busy`      remove(cell at x) + destroyCell
+  `has <x>` / `nb <x>` / `obs` / `clear`                     Grid base observers (has, getCell, neighbors, getContent,
+                                                             getCoordinates, getCells, components, status) and clear()
+  `setlimit <k>` / `setbounds <lo>*d <up>*d` / `setdim <d> [<lo>*d <up>*d]`   the setters AFTER first use, as coded
 Every result is followed by ` | n=<k> <id:coords:neighbors:border:data>* | pending=<id:coords:neighbors:border|->`.
 -/
 namespace OmplModel.Driver.GridNDrv
@@ -15,6 +18,8 @@ open OmplModel.Grid OmplModel.GridN OmplModel.Driver
 structure St where
   cfg : Cfg
   g : GridN.GridN
+  /-- `overrideCellNeighborsLimit_`: `setDimension` resets the limit to `2*dim` only while this is false. -/
+  overridden : Bool := false
 
 def kv (pre : String) (s : String) : Option String :=
   if s.startsWith pre then some (s.drop pre.length).toString else none
@@ -32,7 +37,7 @@ def init (ts : List String) : Option St :=
       | "bounds" :: xs =>
         if xs.length = 2 * dim then (parseInts? xs).map (fun v => some (v.take dim, v.drop dim)) else none
       | _ => none
-    pure ⟨{ dim, bounds, limit, ltE := fun _ _ => false, ltI := fun _ _ => false, ev := fun c => c.data }, {}⟩
+    pure ⟨{ dim, bounds, limit, ltE := fun _ _ => false, ltI := fun _ _ => false, ev := fun c => c.data }, {}, ls != "default"⟩
   | _ => none
 
 def joinC (xs : List String) : String := if xs.isEmpty then "-" else ",".intercalate xs
@@ -82,6 +87,60 @@ def step (st : St) (ts : List String) : St × String :=
         fin r.1 (if r.2 then "1" else "0")
       else fin g "absent"
     | _ => (st, "bad-op")
+  | "has" :: rest =>
+    match coord? cfg.dim rest with
+    | some (x, []) =>
+      match getCell g.cells x with
+      | some c => fin g s!"1 c={c.id}"
+      | none => fin g "0"
+    | _ => (st, "bad-op")
+  | "nb" :: rest =>
+    match coord? cfg.dim rest with
+    | some (x, []) =>
+      let nb := neighbors cfg.dim g.cells x
+      fin g (joinSp (toString nb.length :: nb.map (fun c => toString c.id)))
+    | _ => (st, "bad-op")
+  | ["obs"] =>
+    -- getContent / getCoordinates / getCells (sorted: hash order), components() (canonical), status()
+    let content := (g.cells.map (·.data)).mergeSort (fun a b => decide (a ≤ b))
+    let ids := (g.cells.map (·.id)).mergeSort (fun a b => decide (a ≤ b))
+    let comps := components cfg.dim g.cells
+    let canon := (comps.map (fun c => (c.map (·.id)).mergeSort (fun a b => decide (a ≤ b)))).mergeSort (fun a b =>
+      decide (a.length > b.length) || (a.length == b.length && decide (a.headD 0 ≤ b.headD 0)))
+    fin g ("content=" ++ joinC (content.map toString) ++ " cells=" ++ joinC (ids.map toString) ++
+      " sizes=" ++ joinC (comps.map (fun c => toString c.length)) ++
+      " comps=" ++ (if canon.isEmpty then "-" else ";".intercalate (canon.map (fun c => ",".intercalate (c.map toString)))) ++
+      " status=" ++ toString g.cells.length ++ "/" ++ toString comps.length)
+  -- late setters, AS CODED: they only store the new parameter; no existing cell is touched
+  | ["setlimit", k] =>
+    match k.toNat? with
+    | some k =>
+      if k = 0 then (st, "bad-op")
+      else if g.pending.isSome then fin g "busy"
+      else ({ st with cfg := { cfg with limit := k }, overridden := true }, "ok | " ++ dump g)
+    | none => (st, "bad-op")
+  | "setbounds" :: xs =>
+    if xs.length != 2 * cfg.dim then (st, "bad-op") else
+    match parseInts? xs with
+    | some v =>
+      if g.pending.isSome then fin g "busy"
+      else ({ st with cfg := { cfg with bounds := some (v.take cfg.dim, v.drop cfg.dim) } }, "ok | " ++ dump g)
+    | none => (st, "bad-op")
+  | "setdim" :: d :: xs =>
+    -- GridN::setDimension ("should not be done unless the grid is empty"); the bounds vectors keep their old size,
+    -- so a bounded grid must be given bounds of the new dimension in the same line (setBounds follows at once)
+    match d.toNat?, parseInts? xs with
+    | some d, some v =>
+      if d = 0 || d > 8 || xs.length != (if cfg.bounds.isSome then 2 * d else 0) then (st, "bad-op")
+      else if g.pending.isSome || !g.cells.isEmpty then fin g "busy"
+      else
+        let b := if cfg.bounds.isSome then some (v.take d, v.drop d) else none
+        ({ st with cfg := { cfg with dim := d, bounds := b, limit := if st.overridden then cfg.limit else 2 * d } }, "ok | " ++ dump g)
+    | _, _ => (st, "bad-op")
+  | ["clear"] =>
+    -- Grid::clear() (freeMemory): every cell of the grid is deleted; a pending cell is not in the grid
+    -- (refused while a created cell is pending, like `rm`: the create..add window holds no other mutation)
+    if g.pending.isSome then fin g "busy" else fin { g with cells := [] } "ok"
   | _ => (st, "bad-op")
 
 end OmplModel.Driver.GridNDrv
